@@ -131,6 +131,13 @@ func judge(sc *proto.Scenario, res *proto.Result, refs [][]*proto.OpResult, meta
 			default:
 				f.Props = []string{"C12"}
 			}
+		case "I-RACE":
+			f.Props = []string{"C12"}
+			f.Paths = nil
+			if len(v.Paths) > 0 {
+				f.Context = v.Paths[0] // the variable
+			}
+			f.Detail = v.Object + ": " + v.Detail
 		default:
 			f.Props = []string{"C12"}
 			if touchesResolution(sc, op) {
